@@ -54,27 +54,32 @@ def seeds_for(tier: str, base: int) -> list[int]:
 
 
 def probe(prop: str, cases: list[tuple[str, str, iltext.Body]], seeds: list[int], fuel=400, shard=60, timeout=1200):
-    """cases: (id, ast_coq, body).  Returns {id: None | (flags, ndefined, None | (seed, kind))}"""
+    """cases: (id, ast_coq, body).  Returns {id: None | (flags, ndefined, None | (seed, kind))}
+    Programs with two or more loops (nesting makes the cost of an exhausted run fuel^depth) are evaluated with less fuel, in
+    their own case files: runs that need more iterations than that count as "C undefined here" for that state only."""
     files = {}
-    ids = [c[0] for c in cases]
-    shard = max(6, min(shard, -(-len(cases) // common.NPROC)))
-    for k in range(0, len(cases), shard):
-        chunk = cases[k : k + shard]
-        rows = ";\n".join(f"({a}, {b.coq()})" for _, a, b in chunk)
-        files[f"diff_{k // shard:04d}"] = (
-            HEADER.format(seeds="[" + "; ".join(str(s) for s in seeds) + "]", fuel=fuel)
-            + f"Definition cases : list (cstmts * body) := [\n{rows}\n].\nEval vm_compute in (map probe cases).\n"
-        )
+    groups = {"": ([c for c in cases if c[1].count("SFor") < 2], fuel), "n": ([c for c in cases if c[1].count("SFor") >= 2], min(fuel, 90))}
+    where = {}
+    for tag, (grp, fl) in groups.items():
+        sh = max(6, min(shard, -(-len(grp) // common.NPROC))) if grp else shard
+        for k in range(0, len(grp), sh):
+            chunk = grp[k : k + sh]
+            rows = ";\n".join(f"({a}, {b.coq()})" for _, a, b in chunk)
+            name = f"diff{tag}_{k // sh:04d}"
+            where[name] = [c[0] for c in chunk]
+            files[name] = (
+                HEADER.format(seeds="[" + "; ".join(str(s) for s in seeds) + "]", fuel=fl)
+                + f"Definition cases : list (cstmts * body) := [\n{rows}\n].\nEval vm_compute in (map probe cases).\n"
+            )
     ok, outs, err = common.run_case_files(prop + "_diff", files, timeout=timeout)
     if not ok:
         raise RuntimeError("diff case files failed: " + err[-3000:])
     res = {}
     for name in sorted(outs):
-        k = int(name.split("_")[1]) * shard
         vals = common.coq_printed_values(outs[name])
         items = parse_option_list(vals[0])
-        for j, it in enumerate(items):
-            res[ids[k + j]] = it
+        for cid, it in zip(where[name], items):
+            res[cid] = it
     return res
 
 
